@@ -34,6 +34,9 @@ def run(ctx, rep):
     rep.rule("A7", "CVXPY conversions: a variable vector reshaped into a row-structured (non-square, more than one row) matrix - one row "
                    "per outcome - is reshaped row-major (order='C'); cvxpy.reshape defaults to column-major, numpy to row-major", floor=1)
     _a7(ctx, rep)
+    rep.rule("A8", "loss expressions built schedule by schedule: the per-schedule partial sum is reset for every schedule before its "
+                   "outcomes are added, so that schedule i enters with its own weight", floor=3)
+    _a8(ctx, rep)
     _a1(ctx, rep)
     _a2(ctx, rep)
     _a5(ctx, rep)
@@ -461,6 +464,44 @@ def _a5(ctx, rep):
 
 
 # ------------------------------------------------------------------------------ A7
+def _a8(ctx, rep):
+    """per-schedule partial sums: in `for i: [t = 0]; for j: t += term(i, j); total += c_i * t` the inner accumulator is reset for every i.
+    An accumulator initialised only before the outer loop carries the earlier schedules' terms into the later ones, i.e. schedule i
+    gets the weight c_i + c_{i+1} + ... instead of c_i."""
+    n = 0
+    for f in ctx.ix.funcs.values():
+        if not f.module.name.startswith(("quara.interface.cvxpy", "quara.loss_function")):
+            continue
+        for lp1 in own_nodes(f.node):
+            if not isinstance(lp1, ast.For):
+                continue
+            for k, lp2 in enumerate(lp1.body):
+                if not isinstance(lp2, ast.For):
+                    continue
+                accs = {a.target.id for a in ast.walk(lp2) if isinstance(a, ast.AugAssign) and isinstance(a.target, ast.Name)}
+                later = lp1.body[k + 1:]
+                for acc in sorted(accs):
+                    # read after the inner loop, inside the outer loop, in a statement that accumulates into something else
+                    used = any(isinstance(x, ast.Name) and x.id == acc and isinstance(x.ctx, ast.Load) for st in later for x in ast.walk(st))
+                    if not used:
+                        continue
+                    resets_in = [st for st in lp1.body[:k] if isinstance(st, ast.Assign) and any(isinstance(t, ast.Name) and t.id == acc for t in st.targets)]
+                    resets_out = [st for st in own_nodes(f.node) if isinstance(st, ast.Assign) and any(isinstance(t, ast.Name) and t.id == acc for t in st.targets)
+                                  and not any(st is y for y in ast.walk(lp1))]
+                    con = "%s: partial sum `%s` of the loop over %s" % (f.name, acc, unparse(lp2.iter)[:40])
+                    n += 1
+                    if resets_in:
+                        rep.holds("A8", f, con, "reset at the top of every outer iteration", node=lp2)
+                    elif resets_out:
+                        rep.violation("A8", f, con, "`%s` is initialised before the outer loop only, is added to inside the inner loop and is used after it in every "
+                                                    "outer iteration: the terms of earlier schedules are counted again for every later one (schedule i gets "
+                                                    "the sum of the later weights instead of its own)" % acc, node=resets_out[0])
+                    else:
+                        rep.undecided("A8", f, con, "no initialisation of `%s` found" % acc)
+    if n == 0:
+        rep.undecided("A8", "quara.interface.cvxpy", "partial sums", "no per-schedule partial sum found")
+
+
 def _a7(ctx, rep):
     mod = ctx.ix.modules.get("quara.interface.cvxpy.conversion")
     if mod is None:
